@@ -153,6 +153,37 @@ func Load(repo string, overlay map[string][]byte) (*Ctx, error) {
 		}
 		pkgs = pk2
 	}
+	// [SRA] locals of new struct types that are only used field by field become one local per field (see sra.go)
+	if files, log := sraRound(pkgs, readFile); len(files) > 0 {
+		saved := map[string][]byte{}
+		for k, v := range files {
+			if old, ok := goOverlay[k]; ok {
+				saved[k] = old
+			} else {
+				saved[k] = nil
+			}
+			goOverlay[k] = v
+		}
+		if pk2, err2 := loadOnce(); err2 != nil {
+			inlineLog = append(inlineLog, "sra: replacement rejected, analysing the program as written: "+strings.SplitN(err2.Error(), "\n", 3)[min(1, len(strings.SplitN(err2.Error(), "\n", 3))-1)])
+			for k, v := range saved {
+				if v == nil {
+					delete(goOverlay, k)
+				} else {
+					goOverlay[k] = v
+				}
+			}
+			if os.Getenv("VERIF_INLINE_DEBUG") != "" {
+				for k, v := range files {
+					_ = os.WriteFile("/tmp/sra-debug-"+filepath.Base(k), v, 0o644)
+				}
+				fmt.Fprintln(os.Stderr, err2)
+			}
+		} else {
+			pkgs = pk2
+			inlineLog = append(inlineLog, log...)
+		}
+	}
 	prog, spkgs := ssautil.Packages(pkgs, ssa.InstantiateGenerics)
 	prog.Build()
 	c := &Ctx{InlineLog: inlineLog, RepoDir: repo, Pkgs: pkgs, ByPath: map[string]*packages.Package{}, Prog: prog,
